@@ -399,8 +399,9 @@ let judge_merge f =
     | MErr _ -> if st = "err" then P else D "model errs" in
   out_line id "merge" ["C04", c04; "C02", c02; "C05", c05; "C15", c15; "C16", c16; "FID", fid] ""
 
-let judge_merge3 f =
+let judge_merge3 ?(v4=false) f =
   let id = get f "id" in
+  let prop = if v4 then "C19" else "C07" in
   let doc = unhex (get f "doc") and p1 = unhex (get f "p1") and p2 = unhex (get f "p2") in
   let mst, _, mout = parse_obs (get f "mm") in
   let cst, _, cout = parse_obs (get f "comb") in
@@ -430,11 +431,11 @@ let judge_merge3 f =
          if mst <> "ok" then F "MergeMergePatches fails" else
            (match den_s mout with Some mo -> if jeq mo o2 && jeq o2 mo then P else F "non-object P2: combined patch is not P2" | None -> F "no parse"))
     | _ -> S "domain" in
-  let model = api_merge true (bytes_of_string p1) (bytes_of_string p2) in
+  let model = (if v4 then api_merge4 else api_merge) true (bytes_of_string p1) (bytes_of_string p2) in
   let fid = match model with
     | MOut mb -> if mst = "ok" && (match den_s mout, den_s (string_of_bytes mb) with Some a, Some b -> jeq a b && jeq b a | _ -> false) then P else D "model differs"
     | MErr _ -> if mst = "err" then P else D "model errs" in
-  out_line id "merge3" ["C04", c04; "C07", c07; "FID", fid] ""
+  out_line id (if v4 then "merge34" else "merge3") ["C04", c04; prop, c07; "FID", fid] ""
 
 (* ---------- create ---------- *)
 let rec mentions_differ (a : ojson) (b : ojson) (p : ojson) : bool =
@@ -453,7 +454,7 @@ let rec mentions_differ (a : ojson) (b : ojson) (p : ojson) : bool =
         | None, Some _ -> true) pms
   | _ -> true
 
-let judge_create f =
+let judge_create ?(v4=false) f =
   let id = get f "id" in
   let a = unhex (get f "a") and b = unhex (get f "b") in
   let st, _, out = parse_obs (get f "obs") in
@@ -510,6 +511,14 @@ let judge_create f =
   let fid = match model with
     | MOut mb -> if st = "ok" && string_of_bytes mb = out then P else D "model differs"
     | MErr _ -> if st = "err" then P else D "model errs" in
+  if v4 then begin
+    (* C19: numbers must be spelled the way Go prints a float64 (plain integers below 2^53) *)
+    let stable lit = (lit = "0" || (let l = if lit.[0] = '-' then String.sub lit 1 (String.length lit - 1) else lit in
+                                   String.length l > 0 && String.length l <= 15 && l.[0] <> '0' && String.for_all (fun c -> c >= '0' && c <= '9') l)) in
+    let nums = (match ta, tb with Some x, Some y -> numbers_t x (numbers_t y []) | _ -> []) in
+    let c19 = if List.for_all stable nums then c03 else S "numbers-not-float-stable" in
+    out_line id "create4" ["C04", c04; "C19", c19] ""
+  end else
   out_line id "create" ["C04", c04; "C03", c03; "C15", c15; "C16", c16; "FID", fid] ""
 
 (* ---------- decode ---------- *)
@@ -559,12 +568,7 @@ let judge_decode f =
   out_line id "decode" ["C04", c04; "C11", c11] ""
 
 (* ---------- valid ---------- *)
-let model_valid (b : bytes) : bool =
-  let s0 = scanner_reset { step0 = St_stateBeginValue; endTop = false; parseState = []; err = false } in
-  let rec go s = function
-    | [] -> snd (scanner_eof s) <> z_of_int 11
-    | c :: r -> let (s', op) = step_fn s.step0 s c in if op = z_of_int 11 then false else go s' r in
-  go s0 b
+let model_valid (b : bytes) : bool = valid_gen b
 
 let judge_valid f =
   let id = get f "id" in
@@ -758,6 +762,109 @@ let judge_concurrent f =
   out_line id "concurrent" ["C10", (if get f "mutated" = "1" then F "a shared input was modified"
                                     else if d >= 0 then F (Printf.sprintf "call %d differs from its solo result under concurrency" d) else P)] ("run " ^ get f "run")
 
+(* ---------- legacy root package ---------- *)
+let judge_apply4 f =
+  let id = get f "id" in
+  let flags = get f "flags" in
+  let limit = int_of_string (get f "limit") in
+  let g = { g_neg = flags.[0] = '1'; g_limit = z_of_int limit } in
+  let indent = unhex (get f "indent") in
+  let patch = unhex (get f "patch") and doc = unhex (get f "doc") in
+  let status = get f "status" in
+  let dec = get f "dec" = "1" in
+  let out = unhex (get f "out") in
+  let errbits = get f "errbits" in
+  let c04 = if status = "panic" || status = "timeout" then F status else P in
+  let vs = ref ["C04", c04] in
+  let add p v = vs := !vs @ [p, v] in
+  (match api_decode4 (bytes_of_string patch) with
+   | Some ops when dec && status <> "panic" && status <> "timeout" ->
+     let r = api_apply4 g (bytes_of_string indent) ops (bytes_of_string doc) in
+     let impl_ok = status = "ok" in
+     let model_ok = (match r with Out4 _ -> true | _ -> false) in
+     add "FID" (if impl_ok = model_ok && (not impl_ok || (match r with Out4 b -> (match den_s out, den_s (string_of_bytes b) with Some x, Some y -> jeq x y && jeq y x | _ -> false) | _ -> false)) then P else D "model differs");
+     (* C12 in the legacy package: the package variable *)
+     let impl_cl = String.length errbits > 2 && errbits.[2] = '1' in
+     let model_cl = (match r with Err4 (_, ECopyLimit _) -> true | _ -> false) in
+     add "C12" (if limit = 0 then (if impl_cl then F "limit 0 but AccumulatedCopySizeError" else P)
+                else if impl_cl = model_cl && impl_ok = model_ok then P else F (Printf.sprintf "copy-limit error impl=%b model=%b (legacy package)" impl_cl model_cl));
+     (* C18 *)
+     let tdoc = parse_s doc in
+     let spelled_plainly = not (contains doc "\\" || contains patch "\\" || contains doc "<" || contains doc ">" || contains doc "&"
+                                || contains patch "<" || contains patch ">" || contains patch "&") in
+     let dom = (match tdoc with
+         | Some t -> root_container t && tnodup t && in_domain_C01 ops && spelled_plainly && limit = 0
+                     && List.for_all (fun (op : operation) ->
+                         let path = (match op_str op (bytes_of_string "path") with Ok0 p -> p | _ -> []) in
+                         let from = (match op_str op (bytes_of_string "from") with Ok0 p -> p | _ -> []) in
+                         match op_kind op with
+                         | KAdd -> path <> []
+                         | KCopy | KMove -> from <> []
+                         | KUnknown -> false
+                         | _ -> true) ops
+         | None -> false) in
+     let alias = (match tdoc with
+         | Some t -> has_number_alias (t :: List.concat_map (fun (op : operation) -> match List.assoc_opt (bytes_of_string "value") op with
+             | Some (Some v) -> [v] | _ -> []) ops)
+         | None -> false) in
+     if not dom then add "C18" (S "domain")
+     else if alias && List.exists op_is_test ops then add "C18" (S "number-alias")
+     else begin
+       match tdoc with
+       | Some t ->
+         (match rfc_apply g.g_neg (den t) (List.map den_op ops) with
+          | Done rdoc ->
+            if not impl_ok then add "C18" (F "the RFC reference applies every operation, Apply fails")
+            else (match den_s out with
+                | Some od -> add "C18" (if jeq od rdoc && jeq rdoc od then P else F "document differs from the RFC result")
+                | None -> add "C18" (F "output does not parse"))
+          | Failed (i, c) ->
+            let op = List.nth ops (int_of_nat i) in
+            let k = op_kind op in
+            let must_fail = (c = FTest) || (c = FIndex) || ((k = KRemove || k = KMove) && (c = FMissingMember || c = FUnreachable)) in
+            if not must_fail then add "C18" (S "failure-kind-not-listed")
+            else if impl_ok then add "C18" (F ("reference fails (" ^ cause_str c ^ "), Apply succeeds"))
+            else if get f "outnil" <> "1" then add "C18" (F "error with a document")
+            else add "C18" P)
+       | None -> ()
+     end
+   | _ -> ());
+  out_line id "apply4" !vs ""
+
+let judge_merge4 f =
+  let id = get f "id" in
+  let doc = unhex (get f "doc") and patch = unhex (get f "patch") in
+  let st, _, out = parse_obs (get f "obs") in
+  let c04 = if st = "panic" || st = "timeout" then F st else P in
+  let c19 =
+    match parse_s doc, parse_s patch with
+    | Some td, Some tp when td <> TNull && tnodup td && tnodup tp && (match tp with TObj _ | TArr _ -> true | _ -> false) ->
+      if st <> "ok" then F "MergePatch (legacy) fails" else
+        (match den_s out with
+         | Some od -> let spec = merge_patch (den td) (den tp) in if jeq od spec && jeq spec od then P else F "differs from the RFC 7396 result (legacy)"
+         | None -> F "output does not parse")
+    | _ -> S "domain" in
+  let fid = match api_merge4 false (bytes_of_string doc) (bytes_of_string patch) with
+    | MOut mb -> if st = "ok" && (match den_s out, den_s (string_of_bytes mb) with Some a, Some b -> jeq a b && jeq b a | _ -> false) then P else D "model differs"
+    | MErr _ -> if st = "err" then P else D "model errs" in
+  out_line id "merge4" ["C04", c04; "C19", c19; "FID", fid] ""
+
+let judge_equal4 f =
+  let id = get f "id" in
+  let a = unhex (get f "a") and b = unhex (get f "b") in
+  let st = get f "status" and st2 = get f "status2" in
+  let res = get f "res" = "1" and res2 = get f "res2" = "1" in
+  let c04 = if st <> "ok" || st2 <> "ok" then F (st ^ "/" ^ st2) else P in
+  let c19 =
+    match parse_s a, parse_s b with
+    | Some ta, Some tb when root_container ta && root_container tb && tnodup ta && tnodup tb
+                            && not (contains a "\\") && not (contains b "\\") && not (has_number_alias [ta; tb]) ->
+      let spec = jeq (den ta) (den tb) && jeq (den tb) (den ta) in
+      if st <> "ok" then F "panic" else if res <> spec then F (Printf.sprintf "Equal (legacy)=%b, structural equality=%b" res spec)
+      else if res <> res2 then F "not symmetric" else P
+    | _ -> S "domain" in
+  out_line id "equal4" ["C04", c04; "C19", c19] ""
+
 let () =
   try
     while true do
@@ -775,6 +882,11 @@ let () =
            | "decode" -> judge_decode f
            | "valid" -> judge_valid f
            | "cli" -> judge_cli f
+           | "apply4" -> judge_apply4 f
+           | "merge4" -> judge_merge4 f
+           | "merge34" -> judge_merge3 ~v4:true f
+           | "create4" -> judge_create ~v4:true f
+           | "equal4" -> judge_equal4 f
            | "hcall" -> judge_hcall f
            | "history" -> judge_history f
            | "concurrent" -> judge_concurrent f
